@@ -39,7 +39,7 @@ var osShim = map[string]string{
 var syscallShim = map[string]string{"Mmap": "SyscallMmap", "Munmap": "SyscallMunmap"}
 var httpShim = map[string]string{"Post": "HTTPPost"}
 var randShim = map[string]string{"Read": "CryptoRandRead"}
-var methodShim = map[string]string{"Stat": "FStat", "Close": "FClose", "Write": "FWrite", "WriteAt": "FWriteAt"}
+var methodShim = map[string]string{"Stat": "FStat", "Close": "FClose", "Write": "FWrite", "WriteAt": "FWriteAt", "Truncate": "FTruncate"}
 
 type rw struct {
 	opt     Options
@@ -405,7 +405,7 @@ func arityOK(name string, n int) bool {
 	switch name {
 	case "Stat", "Close":
 		return n == 0
-	case "Write":
+	case "Write", "Truncate":
 		return n == 1
 	case "WriteAt":
 		return n == 2
